@@ -5,6 +5,7 @@ import (
 	"reflect"
 	"sort"
 	"strings"
+	"time"
 
 	"gorm.io/gorm"
 	"gorm.io/gorm/clause"
@@ -79,6 +80,29 @@ func finSkipsHooks(f int) bool {
 	return f == fUpdateColumn || f == fUpdateColumnsMap || f == fUpdateColumnsStruct
 }
 
+// finAllowsSkipHooksSession: programs that are also enumerated behind
+// Session(&Session{SkipHooks: true})
+func finAllowsSkipHooksSession(f int) bool {
+	return f == fUpdatesStruct || f == fUpdatesSelf || f == fUpdatesMap
+}
+
+// noHooks: the statement runs with Statement.SkipHooks (column-update method
+// or SkipHooks session)
+func (c Case) noHooks() bool { return finSkipsHooks(c.Fin) || c.SkipHooks }
+
+// explicit values for the create-time (k=0) / update-time (k=1) field
+var explicitTimes = [2]time.Time{
+	time.Date(2010, 5, 5, 5, 5, 5, 0, time.UTC),
+	time.Date(2011, 6, 6, 6, 6, 6, 0, time.UTC),
+}
+
+func (m ModelSpec) timeVal(k int) interface{} {
+	if m.TimeKind == 1 {
+		return explicitTimes[k]
+	}
+	return int64(777 + 111*k)
+}
+
 // value codes per data field
 const (
 	vAbsent  = 0 // map: key absent; struct: zero
@@ -117,7 +141,13 @@ type Case struct {
 	Vals     [4]int    `json:"vals"`
 	KeySpell int       `json:"key_spelling"` // map keys / Update column: 0 field name, 1 column name
 	Target   int       `json:"target"`
-	Readable string    `json:"readable,omitempty"`
+	// TVals: does the value carry an explicit non-zero value for the
+	// create-time [0] / update-time [1] field (different from the stored one
+	// and from "now")
+	TVals [2]int `json:"time_vals"`
+	// SkipHooks: the chain starts with Session(&Session{SkipHooks: true})
+	SkipHooks bool   `json:"skip_hooks,omitempty"`
+	Readable  string `json:"readable,omitempty"`
 }
 
 // canonical form of the value codes for the finisher (so that equivalent
@@ -146,7 +176,7 @@ func (m ModelSpec) spelled(n NameRef) string {
 }
 
 func (c Case) key() string {
-	return fmt.Sprintf("%v|%d|%v|%d|%v|%v|%v|%v|%d|%d", c.Model.Tags, c.Model.TimeKind, c.Model.CTag, c.Fin, c.Sel.Star, c.Sel.Sel, c.Sel.Omit, c.Vals, c.KeySpell, c.Target)
+	return fmt.Sprintf("%v|%d|%v|%d|%v|%v|%v|%v|%d|%d|%v|%v", c.Model.Tags, c.Model.TimeKind, c.Model.CTag, c.Fin, c.Sel.Star, c.Sel.Sel, c.Sel.Omit, c.Vals, c.KeySpell, c.Target, c.TVals, c.SkipHooks)
 }
 
 // ---------------------------------------------------------------------------
@@ -227,6 +257,16 @@ func (c Case) newStruct(id uint, r int) reflect.Value {
 			}
 		}
 	}
+	for k := 0; k < 2; k++ {
+		if c.TVals[k] != 0 {
+			f := v.FieldByName(c.Model.fieldName(lCT + k))
+			if c.Model.TimeKind == 1 {
+				f.Set(reflect.ValueOf(explicitTimes[k]))
+			} else {
+				f.SetInt(c.Model.timeVal(k).(int64))
+			}
+		}
+	}
 	return p
 }
 
@@ -249,6 +289,11 @@ func (c Case) newMap(r int, create bool) map[string]interface{} {
 		}
 		mp[c.Model.spelled(NameRef{lF0 + i, c.KeySpell})] = mapVal(c.Model, i, c.Vals[i], r, create)
 	}
+	for k := 0; k < 2; k++ {
+		if c.TVals[k] != 0 {
+			mp[c.Model.spelled(NameRef{lCT + k, c.KeySpell})] = c.Model.timeVal(k)
+		}
+	}
 	return mp
 }
 
@@ -257,6 +302,11 @@ func (c Case) single() (string, interface{}, int) {
 	for i := 0; i < 4; i++ {
 		if c.Vals[i] != vAbsent {
 			return c.Model.spelled(NameRef{lF0 + i, c.KeySpell}), mapVal(c.Model, i, c.Vals[i], 0, false), i
+		}
+	}
+	for k := 0; k < 2; k++ {
+		if c.TVals[k] != 0 {
+			return c.Model.spelled(NameRef{lCT + k, c.KeySpell}), c.Model.timeVal(k), -1
 		}
 	}
 	panic("single: no value")
@@ -281,6 +331,8 @@ func valString(v interface{}) string {
 		return fmt.Sprintf("gorm.Expr(%q,%v)", t.SQL, t.Vars)
 	case string:
 		return fmt.Sprintf("%q", t)
+	case time.Time:
+		return "time(" + t.Format("2006-01-02T15:04:05Z") + ")"
 	}
 	return fmt.Sprint(v)
 }
@@ -293,6 +345,11 @@ func (c Case) structString(id uint, r int) string {
 	for i := 0; i < 4; i++ {
 		if c.Vals[i] == vNonZero || c.Vals[i] == vExpr {
 			ps = append(ps, fmt.Sprintf("F%d:%s", i, valString(nonZeroVal(i, r))))
+		}
+	}
+	for k := 0; k < 2; k++ {
+		if c.TVals[k] != 0 {
+			ps = append(ps, fmt.Sprintf("%s:%s", c.Model.fieldName(lCT+k), valString(c.Model.timeVal(k))))
 		}
 	}
 	return "T{" + strings.Join(ps, ",") + "}"
@@ -391,6 +448,10 @@ func (c Case) applyTarget(db *gorm.DB, sb *strings.Builder) *gorm.DB {
 func (c Case) run(db *gorm.DB) (*gorm.DB, string) {
 	var sb strings.Builder
 	sb.WriteString("db")
+	if c.SkipHooks {
+		db = db.Session(&gorm.Session{SkipHooks: true})
+		sb.WriteString(".Session(&Session{SkipHooks:true})")
+	}
 	zero := func() interface{} { return reflect.New(c.Model.Type()).Interface() }
 	idKey := c.Model.spelled(NameRef{lID, c.KeySpell})
 	var tx *gorm.DB
